@@ -341,6 +341,26 @@ class Obj(object):
             p=lambda x: tuple(np.ravel(pm.compute_individual_parameters(
                 x, obs))))
 
+    def _build_pop_flat(self, tag):
+        """composition without pooled / heterogeneous dimensions; the
+        individual-level values are handed over as one flat array (the layout
+        of a hierarchical parameter vector)"""
+        B = self.B
+        pm = chi.ComposedPopulationModel(
+            [chi.GaussianModel(centered=False),
+             chi.LogNormalModel(centered=False)])
+        pm.set_n_ids(2)
+        eta = self._watch(ps.arr(B, [B.var('e%s%d' % (tag, k))
+                                     for k in range(4)]))
+        self.obj = pm
+        self.n = 4
+        self.ops = dict(
+            v=lambda x: (pm.compute_log_likelihood(x, eta.reshape(2, 2)),),
+            p=lambda x: tuple(np.ravel(pm.compute_individual_parameters(
+                x, eta))),
+            s=lambda x: tuple(np.ravel(pm.compute_individual_parameters(
+                x, eta, return_eta=True))))
+
     def _build_filter(self, tag):
         B = self.B
         M = self._watch(ps.arr(B, [[[B.var('m%s%d' % (tag, t))
@@ -452,11 +472,11 @@ def case_seq(B, cfg):
         s_ = seen.get((oi, 's', which))
         p_ = seen.get((oi, 'p', which))
         if v is not None and s_ is not None and op in ('v', 's') and \
-                kind not in ('pm', 'ppm', 'prior_pm'):
+                kind not in ('pm', 'ppm', 'prior_pm', 'pop_flat'):
             B.eq('step %d: S1 score = value at the same point (object %d)'
                  % (step, oi), s_[0], v[0])
         if v is not None and p_ is not None and op in ('v', 'p') and \
-                kind not in ('red_pop', 'ppm', 'prior_pm'):
+                kind not in ('red_pop', 'ppm', 'prior_pm', 'pop_flat'):
             tot = p_[0]
             for t_ in p_[1:]:
                 tot = tot + t_
@@ -554,7 +574,8 @@ def case_shared_models(B, cfg):
 
 
 KINDS = ['ll_pk', 'll_pk_fixed', 'post_pk', 'll_sym', 'hier', 'filterpost',
-         'red_em', 'red_pop', 'filter', 'll_red_em', 'pm', 'ppm', 'prior_pm']
+         'red_em', 'red_pop', 'filter', 'll_red_em', 'pm', 'ppm', 'prior_pm',
+         'pop_flat']
 
 
 def jobs(tier):
